@@ -1,10 +1,13 @@
 import Rustic.Model.Repo
+import Rustic.Model.PackerActor
+import Rustic.Gen.Constants
 import Driver.Util
 /-
 C03 driver channel (trace monitor).
 
   c03 mon <cmd> <spec> <pre> <run>
-     cmd   = backup | forget | prune | prune-instant | merge | repairsnap | repairidx | repairidx-readall | config | key
+     cmd   = backup | forget | prune | prune-instant | merge | copy | rewrite | repairsnap | repairidx | repairidx-readall |
+             config | key | keyrm   (copy: the repository is the destination)
      spec  = scenario description (only read by the harness)
      pre   = abstract operations that build the state before the command (applied to the empty repository)
      run   = abstract operations the real command issued (decoded from the backend log by the harness)
@@ -12,8 +15,16 @@ C03 driver channel (trace monitor).
        P<id>:<keys>  writePack      p<id>  removePack     keys = `t1.d2` or `-`
        I<id>:<packs>|<del>  writeIndex, packs separated by `+`, pack = `<id>=<keys>`      i<id>  removeIndex
        S<id>:<keys>  writeSnap (keys = closure)          s<id>  removeSnap         O  other (key/config file)
+  c03 big <spec> <pre> <run> <counts>
+     the same for a backup with more blobs than the indexer's auto-save threshold (blob keys abstracted to occurrence
+     classes by the harness); counts = `<pack>=<number of blobs>` per pack written, separated by `.`.  Additionally
+     (a) writer language: every index file lists only packs written before it and listed by no earlier index file of the
+     run, and at the end every written pack is listed; (b) the auto-save rule: `Model/PackerActor.lean` is run on the
+     packs in the order they were indexed (the order inside the index files) with `maxCount` = the generated
+     `C03_INDEXER_MAX_COUNT`; the index files it writes must list the same groups of packs as the observed ones.
   observation: `ok` iff the pre-state is consistent, the state after EVERY prefix of `run` is consistent
-  (Repo.firstBad = none) and `run` is in the phase language of the command; else `bad:…`.
+  (Repo.firstBad = none), `run` is in the phase language of the command and — for the commands that publish new packs
+  (backup, copy, merge, rewrite, repairsnap) — in the writer language ((a) below); else `bad:…`.
 -/
 namespace Driver.C03
 open Rustic.Repo Driver
@@ -62,17 +73,65 @@ def parseOp (s : String) : Option Op :=
 
 def parseOps (s : String) : Option (List Op) := (splitList ";" s).mapM parseOp
 
+/-- writer language of a fault-free run that adds data (see the header) -/
+def writerLang : List Nat → List Op → Bool
+  | w, [] => w.isEmpty
+  | w, .writePack p :: r => writerLang (p.id :: w) r
+  | w, .writeIndex i :: r =>
+    i.packs.all (fun p => w.contains p.id) && writerLang (w.filter (fun id => !(i.packs.any (fun p => p.id == id)))) r
+  | w, _ :: r => writerLang w r
+
+/-- commands whose new index files list exactly the packs the run wrote (packer → writer → indexer, `publish` protocol) -/
+def publishCmds : List String := ["backup", "copy", "merge", "rewrite", "repairsnap"]
+
 def monitor (cmd : String) (pre run : List Op) : String :=
   let r0 := applyAll {} pre
   if !consistent r0 then "bad:pre-inconsistent" else
-  match phasesOf cmd with
+  match phasesOf (if cmd = "keyrm" then "key" else cmd) with
   | none => "bad-op"
   | some phs =>
     match firstBad r0 run with
     | some k => s!"bad:prefix{k}"
-    | none => if matchPhases phs (run.map Op.kind) then "ok" else "bad:phase"
+    | none =>
+      if !matchPhases phs (run.map Op.kind) then "bad:phase"
+      else if publishCmds.contains cmd && !writerLang [] run then "bad:writer-language"
+      else "ok"
+
+def parseCounts (s : String) : Option (List (Nat × Nat)) :=
+  (splitList "." s).mapM (fun t => match t.splitOn "=" with
+    | [a, b] => match a.toNat?, b.toNat? with
+      | some a, some b => some (a, b)
+      | _, _ => none
+    | _ => none)
+
+/-- groups of pack ids listed by the index files the actor model writes when the packs (with their blob counts) are
+written and indexed in the given order by one writer and the command then finishes -/
+def modelGroups (maxCount : Nat) (packs : List (Nat × Nat)) : List (List Nat) :=
+  let ps : List Pack := packs.map (fun (id, n) => { id := id, blobs := List.replicate n (BlobType.data, 0) })
+  let s := Rustic.PackerActor.run maxCount (Rustic.PackerActor.init {} 1)
+    (Rustic.PackerActor.sequential 0 ps ++ [.finish { id := 0, needs := [] } true true])
+  s.repo.indexes.reverse.map (fun i => i.packs.map (·.id))
+
+def autosaveRule (run : List Op) (counts : List (Nat × Nat)) : Bool :=
+  let groups := run.filterMap (fun o => match o with | .writeIndex i => some (i.packs.map (·.id)) | _ => none)
+  match groups.flatten.mapM (fun id => (counts.find? (·.1 == id)).map (fun c => (id, c.2))) with
+  | none => false
+  | some order => modelGroups Rustic.Gen.C03_INDEXER_MAX_COUNT order == groups
+
+def monitorBig (pre run : List Op) (counts : List (Nat × Nat)) : String :=
+  match monitor "backup" pre run with
+  | "ok" =>
+    if !writerLang [] run then "bad:writer-language"
+    else if !autosaveRule run counts then "bad:autosave-rule"
+    else if (run.filter (fun o => o.kind == 'I')).length < 2 then "bad:no-auto-saved-index"
+    else "ok"
+  | other => other
 
 def handle : List String → String
+  | ["big", _spec, pre, run, counts] =>
+    match parseOps pre, parseOps run, parseCounts counts with
+    | some pre, some run, some counts => monitorBig pre run counts
+    | _, _, _ => "bad-op"
   | ["mon", cmd, _spec, pre, run] =>
     match parseOps pre, parseOps run with
     | some pre, some run => monitor cmd pre run
